@@ -84,6 +84,17 @@ impl Ctx<'_> {
             self.fail(filter, clause, idx, chain, data, expected, &actual);
         }
     }
+    /// two chains must give the same result (a panic in either is reported as such)
+    fn agree(&self, filter: &str, clause: &str, idx: u64, chain_a: &str, chain_b: &str, data: &V) {
+        let a = self.render(chain_a, data);
+        let b = self.render(chain_b, data);
+        self.nontriv.fetch_add(1, Ordering::Relaxed);
+        if matches!(a, Outcome::Panic(_)) {
+            self.fail(filter, clause, idx, chain_a, data, "a result", &a);
+        } else if a != b {
+            self.fail(filter, clause, idx, chain_b, data, &format!("what {{{{ a | {chain_a} }}}} gives: {}", a.short()), &b);
+        }
+    }
     /// either of two readings is accepted
     fn either(&self, filter: &str, clause: &str, idx: u64, chain: &str, data: &V, a: &str, b: &str) {
         let actual = self.render(chain, data);
@@ -387,10 +398,27 @@ fn object_arrays(ctx: &Ctx, maxlen: u32) {
 }
 
 fn long_arrays(ctx: &Ctx, lens: &[usize]) {
-    let pool = [V::Int(0), V::Int(1), V::Int(2), V::s("a"), V::s("b"), V::Nil];
+    long_arrays_over(ctx, lens, "small", [V::Int(0), V::Int(1), V::Int(2), V::s("a"), V::s("b"), V::Nil]);
+    // numbers whose numeric and textual orders differ, next to text that starts with a digit: any comparator
+    // that mixes two orderings (numeric between numbers, textual otherwise) has cycles here (9 < 10 < "1a" < 9)
+    long_arrays_over(ctx, lens, "digits", [V::Int(9), V::Int(10), V::s("1a"), V::s("10"), V::s("B"), V::Nil]);
+    long_rotations(ctx, lens);
+}
+
+fn lower_texts(a: &[V]) -> Vec<String> {
+    a.iter()
+        .map(|v| match v {
+            V::Str(s) => s.to_lowercase(),
+            V::Int(i) => i.to_string(),
+            _ => String::new(),
+        })
+        .collect()
+}
+
+fn long_arrays_over(ctx: &Ctx, lens: &[usize], pname: &str, pool: [V; 6]) {
     let np = seq_count(6, 4) - 1;
     let total = np * lens.len() as u64;
-    let name = format!("periodic long arrays/L in {lens:?}");
+    let name = format!("periodic long arrays over {pname}/L in {lens:?}");
     par_range(
         ctx.report,
         &name,
@@ -407,6 +435,12 @@ fn long_arrays(ctx: &Ctx, lens: &[usize]) {
                 ctx.permutation("sort", i, "sort", &data, &a);
             }
             ctx.permutation("sort_natural", i, "sort_natural", &data, &a);
+            // whatever order sort_natural implements, it is an order: as lower-cased texts the result does not
+            // depend on how the input was arranged
+            ctx.agree("sort_natural", "depends-on-input-order", i, "sort_natural | join: '/' | downcase", "reverse | sort_natural | join: '/' | downcase", &data);
+            if pname == "small" {
+                ctx.exact("sort_natural", "order-long", i, "sort_natural | join: '/' | downcase", &data, &format!("s:{:?}", lower_texts(&sort_natural_ref(&a)).join("/")));
+            }
             ctx.permutation("reverse", i, "reverse", &data, &a);
             ctx.exact("uniq", "first-of-each-class", i, "uniq", &data, &darr(&uniq_ref(&a)));
             ctx.exact("compact", "removes-exactly-nils", i, "compact", &data, &darr(&a.iter().filter(|v| **v != V::Nil).cloned().collect::<Vec<_>>()));
@@ -414,7 +448,10 @@ fn long_arrays(ctx: &Ctx, lens: &[usize]) {
         },
         |i| json!({"pattern": seq_decode(i % np + 1, 6, 4), "L": lens[(i / np) as usize]}),
     );
-    ctx.report.family(FamilyStat { name, cases: total, nontrivial: total * 6, skipped: 0, note: "all patterns of length <= 4 over {0,1,2,\"a\",\"b\",nil} repeated to L (beyond the 20-element threshold of the standard sort): exact order when mutually comparable, otherwise no failure + permutation".into() });
+    ctx.report.family(FamilyStat { name, cases: total, nontrivial: total * 8, skipped: 0, note: format!("all patterns of length <= 4 over the pool {:?} repeated to L (beyond the 20-element threshold of the standard sort): exact order when mutually comparable, otherwise no failure + permutation; sort_natural as lower-cased text is the same for the reversed input (and, over the small pool, the case-insensitive textual order)", pool.iter().map(|v| dump_v(v)).collect::<Vec<_>>()) });
+}
+
+fn long_rotations(ctx: &Ctx, lens: &[usize]) {
     // rotations of sorted / reversed integer arrays, and object arrays sorted by key (stability at length > 20)
     let mut n = 0u64;
     for &l in lens {
